@@ -9,6 +9,7 @@ import (
 	"encoding/json"
 	"fmt"
 	"go/types"
+	"golang.org/x/tools/go/ssa"
 	"os"
 	"os/exec"
 	"path/filepath"
@@ -18,14 +19,16 @@ import (
 )
 
 type ReplaySpec struct {
-	Kind string // "step", "none"
-	Enc  *Encoding
-	Call string // Go statement that runs the real code (default cpu.Step())
-	Diff string // Go expression giving the difference mask (default vsStepDiff(...))
-	Intr bool   // the pending request is part of the pre-state
-	Rel  *relCase
+	Kind     string // "step", "none"
+	Enc      *Encoding
+	Call     string // Go statement that runs the real code (default cpu.Step())
+	Diff     string // Go expression giving the difference mask (default vsStepDiff(...))
+	Intr     bool   // the pending request is part of the pre-state
+	Rel      *relCase
 	Contract *Contract
-	Note string
+	Lemma    *ssa.Function
+	Kcase    int
+	Note     string
 }
 
 type replayFile struct {
@@ -317,9 +320,44 @@ func (r *Run) reportFailures(ld *Loaded, os_ []*OblResult, compMask func(string)
 				rf.Model[k] = fmt.Sprintf("0x%x", v)
 			}
 		}
-		if o.Status == "failed" && o.vc != nil && o.vc.Replay != nil && o.res != nil && o.res.Model != nil && (o.vc.Replay.Kind == "step" || o.vc.Replay.Kind == "rel" || o.vc.Replay.Kind == "func") && len(cases) < 400 {
+		if o.Status == "failed" && o.vc != nil && o.vc.Replay != nil && o.res != nil && o.res.Model != nil && (o.vc.Replay.Kind == "step" || o.vc.Replay.Kind == "rel" || o.vc.Replay.Kind == "func" || o.vc.Replay.Kind == "lemma") && len(cases) < 400 {
 			var src string
 			switch o.vc.Replay.Kind {
+			case "lemma":
+				// a lemma whose parameters are all scalars is evaluated concretely
+				// (executable spec + the real code it calls) on the model
+				fn := o.vc.Replay.Lemma
+				var as []string
+				ok := true
+				for k, prm := range fn.Params {
+					if k == 0 && o.vc.Replay.Kcase >= 0 {
+						as = append(as, fmt.Sprintf("%d", o.vc.Replay.Kcase))
+						continue
+					}
+					if !isInteger(prm.Type()) && !isBool(prm.Type()) {
+						ok = false
+						break
+					}
+					v := o.res.Model[fmt.Sprintf("lemmaarg:%d", k)]
+					if isBool(prm.Type()) {
+						as = append(as, fmt.Sprintf("%v", v != 0))
+					} else {
+						w, sg := intWidth(prm.Type())
+						if sg {
+							as = append(as, fmt.Sprintf("%s(%d)", typeSrc(prm.Type(), fn.Pkg.Pkg), sext64(v, w)))
+						} else {
+							as = append(as, fmt.Sprintf("%s(0x%x)", typeSrc(prm.Type(), fn.Pkg.Pkg), v))
+						}
+					}
+				}
+				if !ok {
+					continue
+				}
+				src = fmt.Sprintf("func vsReplayCase%d() {\n\tif !%s(%s) {\n\t\tfmt.Println(\"REPLAY-DIVERGENCE %s(%s) is false on the real code\")\n\t} else {\n\t\tfmt.Println(\"REPLAY-AGREE\")\n\t}\n}\n", i, fn.Name(), strings.Join(as, ", "), fn.Name(), strings.Join(as, ", "))
+				if pkgDir == "" {
+					pkgDir = filepath.Join(ld.repo, relDir(fn.Pkg.Pkg.Path()))
+					pkgName = fn.Pkg.Pkg.Name()
+				}
 			case "rel":
 				src = ld.genRelReplay(o.res.Model, o.vc.Replay, i)
 			case "func":
